@@ -451,6 +451,13 @@ fn unit(r: &mut Rng) -> f64 {
 pub fn translate(o: &Operand, dx: f64, dy: f64) -> Operand {
     o.iter().map(|p| p.iter().map(|r| r.iter().map(|c| [c[0] + dx, c[1] + dy]).collect()).collect()).collect()
 }
+/// translation that is exact in f64 for every vertex (None if any coordinate would be rounded)
+pub fn translate_exact(o: &Operand, dx: f64, dy: f64) -> Option<Operand> {
+    let t = translate(o, dx, dy);
+    let ok = o.iter().flatten().flatten().zip(t.iter().flatten().flatten()).all(|(c, d)| d[0] - dx == c[0] && d[1] - dy == c[1] && d[0] - c[0] == dx && d[1] - c[1] == dy);
+    if ok { Some(t) } else { None }
+}
+
 pub fn scale(o: &Operand, s: f64) -> Operand {
     o.iter().map(|p| p.iter().map(|r| r.iter().map(|c| [c[0] * s, c[1] * s]).collect()).collect()).collect()
 }
